@@ -83,6 +83,9 @@ def cases(ctx):
         vals = [None if rng.random() < p_none else (rng.choice(I32) if rng.random() < 0.5 else rng.randint(-(2**31), 2**31 - 1))
                 for _ in range(ln)]
         yield {"kind": "ret_arr", "address": pick(rng, I32), "values": vals}
+    for ln in (4, 64):
+        if mine():
+            yield {"kind": "threaded", "threads": 4, "length": ln, "rounds": 1500 if ctx.quick else 20000}
     for _ in range(ctx.n(200, 5000)):
         flav = rng.choice(["vanilla", "nv", "reids"])
         names = sorted(isa.TABLE[flav])
@@ -94,9 +97,45 @@ def cases(ctx):
                "app_id": rng.randrange(65536), "instrs": ins}
 
 
+def _threaded(ctx, case):
+    """Several controller threads serialise / deserialise returned arrays of the SAME length at the same time (one thread per
+    application is the normal deployment): no message may pick up another thread's entries."""
+    import sys
+    import threading
+    from netqasm.backend import messages as M
+    n, ln, rounds = case["threads"], case["length"], case["rounds"]
+    errors = []
+    old = sys.getswitchinterval()
+    sys.setswitchinterval(1e-6)
+    barrier = threading.Barrier(n)
+
+    def worker(t):
+        vals = [(t + 1) * 1000 + i if (i + t) % 3 else None for i in range(ln)]
+        barrier.wait()
+        for r in range(rounds):
+            back = M.deserialize_return_msg(bytes(M.ReturnArrayMessage(address=t, values=list(vals))))
+            if back.values != vals or back.address != t:
+                errors.append(f"thread {t} round {r}: sent {vals[:6]} @ {t}, got {back.values[:6]} @ {back.address}")
+                return
+    try:
+        ths = [threading.Thread(target=worker, args=(t,)) for t in range(n)]
+        for th in ths:
+            th.start()
+        for th in ths:
+            th.join(60)
+    finally:
+        sys.setswitchinterval(old)
+    ctx.count("threaded_roundtrips", n * rounds)
+    if errors:
+        ctx.fail(case, "concurrent serialisation of returned arrays mixes messages: " + errors[0])
+    ctx.case(case, True)
+
+
 def run_case(ctx, case):
     from netqasm.backend import messages as M
     kind = case["kind"]
+    if kind == "threaded":
+        return _threaded(ctx, case)
     ctx.count("messages_roundtripped")
 
     def check_fields(msg, cls, fields, raw):
@@ -182,10 +221,14 @@ def run_case(ctx, case):
         # its *current* field values
         len(m)
         newvals = [None if v is not None else 7 for v in case["values"]]
-        m.values[:] = newvals
-        m.address = case["address"] ^ 1
+        m.values[0] = newvals[0]            # (i) in-place edit of the live list
         again = M.deserialize_return_msg(bytes(m))
         ctx.count("reserialised_after_update")
+        if again.values != [newvals[0]] + list(case["values"][1:]):
+            ctx.fail(case, f"ret_arr: after an in-place edit of the values list the bytes still carry the old values ({again.values[:6]})")
+        m.values[:] = newvals               # (ii) slice assignment, (iii) attribute assignment
+        m.address = case["address"] ^ 1
+        again = M.deserialize_return_msg(bytes(m))
         if again.values != newvals or again.address != (case["address"] ^ 1):
             ctx.fail(case, f"ret_arr: after updating the message fields, its bytes still carry the old values "
                            f"({again.address}, {again.values[:6]})")
